@@ -5,6 +5,8 @@ pub use real::*;
 #[cfg(not(target_arch = "wasm32"))]
 mod real {
     use super::*;
+    #[cfg(kanata_verif)]
+    use crate::verif_seam::{self as std, parking_lot};
     use std::sync::LazyLock;
 
     use parking_lot::Mutex;
